@@ -221,6 +221,13 @@ func (ea *effAnalysis) callResultRoots(c *ssa.Call, idx int, fn *ssa.Function, d
 		return []root{{kind: rkFresh}}
 	}
 	if c.Call.IsInvoke() {
+		// hash.Hash.Sum(b) appends the digest to b and returns the resulting slice: the result is what b is
+		if c.Call.Method.Name() == "Sum" && len(c.Call.Args) == 1 {
+			if isNilConst(c.Call.Args[0]) {
+				return []root{{kind: rkFresh}}
+			}
+			return ea.roots(c.Call.Args[0], fn, depth+1)
+		}
 		switch c.Call.Method.Name() {
 		case "ComputeHash", "SumHash", "Sum", "Clone", "Encode", "EncodeCompressed", "Bytes", "Error", "String", "Params":
 			// interface contracts: results are fresh values (hash outputs, clones, encodings) or immutable parameters
